@@ -26,8 +26,9 @@ ASSUMPTIONS = [
     "message alphabet: 8 small real WAMP messages; sequences of length <= 3; segmentations: all "
     "2^(n-1) splits for streams <= 12 octets, otherwise every single cut, cut pairs around frame "
     "boundaries and octet-at-a-time",
-    "cross-framework pairs (Twisted<->asyncio) are not run (txaio is process-global); conformance "
-    "of each side to the reference peer is the interoperability argument",
+    "cross-framework pairs (Twisted<->asyncio) run as two processes joined by an octet relay "
+    "(txaio is process-global): a fixed 6-message exchange + limit probes per configuration, not "
+    "the sequence alphabet of the same-framework jobs",
     "closing the transport by letting an exception escape dataReceived/data_received AFTER the "
     "handshake (Twisted over-limit frame: PayloadExceededError; asyncio PING frame: "
     "NotImplementedError) is counted (closed_via_escape) but accepted: the statement forbids "
@@ -102,6 +103,11 @@ def main(ctx):
                                      "tier": tier})
             for sid in bsids:
                 jobs.append({"kind": "pair", "tkind": kind, "sid": sid, "tier": tier})
+            # ---- G. all client/server framework pairings: this framework against the other one
+            for lrole in ("client", "server"):
+                jobs.append({"kind": "xpair", "tkind": kind, "lrole": lrole, "tier": tier})
+        for lrole in ("client", "server"):
+            jobs.append({"kind": "xpair", "tkind": "ws", "lrole": lrole, "tier": tier, "part": "nego"})
         # heavy jobs first
         jobs.sort(key=lambda j: -_weight(j))
         ctx.pmap(env, "props.c13:job", jobs, chunksize=1)
@@ -129,6 +135,14 @@ def main(ctx):
         ctx.require("ws_ref_refused|%s" % fw)
         ctx.require("pair_delivered|rs|%s" % fw)
         ctx.require("pair_delivered|ws|%s" % fw)
+        # cross-framework pairs, counted by the framework of the client side
+        ctx.require("xpair_delivered|rs|%s" % fw)
+        ctx.require("xpair_delivered|ws|%s" % fw)
+        ctx.require("xpair_refused|%s" % fw)
+        ctx.require("xpair_overlimit_refused|%s" % fw)
+        ctx.require("xpair_session_failure|rs|%s" % fw)
+        ctx.require("xpair_session_failure|ws|%s" % fw)
+        ctx.require("xpair_onclose_once|%s" % fw)
         for kind in ("rs", "ws"):
             for ck in CORRUPTIONS:
                 ctx.require("corrupt|%s|%s|%s" % (ck, kind, fw))
@@ -244,6 +258,8 @@ def replay(a):
         case_corrupt(acc, a)
     elif k == "pair1":
         case_pair(acc, a)
+    elif k == "xpair1":
+        case_xpair(acc, a)
     else:
         raise ValueError(k)
     r = acc.result()
@@ -1411,6 +1427,201 @@ def case_pair(acc, a):
         acc.inc("pair_onclose_once|%s" % fw)
 
 
+# ---------------------------------------------------------------------------
+# G. cross-framework pairs: this worker's endpoint against the other framework's (child process)
+# ---------------------------------------------------------------------------
+def _other(fw):
+    return "aio" if fw == "tx" else "tx"
+
+
+_child = []
+
+
+def _get_child(fw):
+    from harness import xfw
+    if _child and (_child[0].fw != fw or _child[0].p.poll() is not None):
+        _child.pop().close()
+    if not _child:
+        _child.append(xfw.Child(fw))
+        import atexit
+        atexit.register(lambda c=_child[0]: c.close())
+    return _child[0]
+
+
+def job_xpair(a, acc):
+    """local role x transport; the peer runs on the other framework"""
+    tkind, lrole, tier = a["tkind"], a["lrole"], a["tier"]
+    thorough = tier == "thorough"
+    sids = SIDS + (["json.batched", "cbor.batched"] if thorough else [])
+    if a.get("part") == "nego":
+        lists = sublists(SIDS, 4 if thorough else 2)
+        for cl in lists:
+            for sl in lists:
+                case_xpair(acc, {"kind": "xpair1", "tkind": "ws", "lrole": lrole, "clist": cl,
+                                 "slist": sl, "chunk": None, "exp": None, "raise_at": None,
+                                 "fbd": None})
+    else:
+        for sid in sids:
+            for chunk in (None, 1, 5):
+                for fbd in ((None,) if tkind == "rs" else (True, False)):
+                    case_xpair(acc, {"kind": "xpair1", "tkind": tkind, "lrole": lrole, "clist": [sid],
+                                     "slist": [sid], "chunk": chunk, "exp": None, "raise_at": None,
+                                     "fbd": fbd})
+            if tkind == "rs":
+                # the Twisted side announces a reduced receive limit (asyncio cannot configure one)
+                for exp in (list(range(0, 12)) if thorough else [0, 1, 5]):
+                    for chunk in ((None, 4099) if exp > 5 else (None, 7)):
+                        case_xpair(acc, {"kind": "xpair1", "tkind": "rs", "lrole": lrole,
+                                         "clist": [sid], "slist": [sid], "chunk": chunk, "exp": exp,
+                                         "raise_at": None, "fbd": None})
+            for side in ("client", "server"):
+                for how in ("protocol", "runtime"):
+                    case_xpair(acc, {"kind": "xpair1", "tkind": tkind, "lrole": lrole, "clist": [sid],
+                                     "slist": [sid], "chunk": None, "exp": None,
+                                     "raise_at": [side, 1, how], "fbd": None if tkind == "rs" else False})
+    acc.samples.append({"kind": "xpair", "transport": tkind, "local_role": lrole, "local_fw": acc.fw,
+                        "cases": acc.evals})
+
+
+def case_xpair(acc, a):
+    from harness import xfw
+    from ref import rawsocket as R
+    from ref import ws_frames as F
+    from harness import wamp_l2 as L
+    fw = acc.fw
+    ofw = _other(fw)
+    tkind, lrole = a["tkind"], a["lrole"]
+    cfw, sfw = (fw, ofw) if lrole == "client" else (ofw, fw)
+    acc.evals += 1
+    acc.inc("nontrivial")
+    tag = "%s-xpair|client:%s|server:%s" % ("rawsocket" if tkind == "rs" else "websocket", cfw, sfw)
+    ra = a.get("raise_at")
+    plans = {"client": {"raise": {str(ra[1]): ra[2]}} if ra and ra[0] == "client" else {},
+             "server": {"raise": {str(ra[1]): ra[2]}} if ra and ra[0] == "server" else {}}
+    lim = {"c": 1 << 24, "s": 1 << 24}
+    maxs = {"client": None, "server": None}
+    opts = None
+    if tkind == "rs":
+        if a["exp"] is not None:
+            # only the Twisted endpoint can announce a smaller receive limit
+            k = "client" if cfw == "tx" else "server"
+            maxs[k] = R.max_len(a["exp"])
+            lim[k[0]] = maxs[k]
+    else:
+        opts = {"failByDrop": a["fbd"]} if a["fbd"] is not None else None
+    child = _get_child(ofw)
+    sides = {}
+    for role, lst in (("server", a["slist"]), ("client", a["clist"])):
+        args = (tkind, role, lst, maxs[role], opts, plans[role])
+        sides[role] = xfw.Side(*args) if role == lrole else xfw.RemoteSide(child, *args)
+    p = xfw.XPair(sides["client"], sides["server"])
+    p.drain()
+    c_att, s_att = p.c.attached(), p.s.attached()
+    d0 = "%s client(%s) offers %s, server(%s) supports %s, receive-limit exponent %s chunk=%s failByDrop=%s raise=%s" % (
+        tkind, cfw, a["clist"], sfw, a["slist"], a["exp"], a["chunk"], a["fbd"], ra)
+    exp_sid = ref_choice(a["clist"], a["slist"]) if tkind == "ws" else a["clist"][0]
+    esc = p.c.escapes() + p.s.escapes()
+    if exp_sid is None:
+        acc.classes.add(("xpair-refused", tkind, cfw, c_att, s_att))
+        for e in esc:
+            acc.bad("C13|escape|%s|%s" % (tag, exc_name(e)), d0, a)
+        if c_att or s_att:
+            acc.bad("C13|attached-invalid|%s|no-common-subprotocol" % tag, d0, a)
+        p.drops()
+        if p.c.closes() or p.s.closes():
+            acc.bad("C13|onclose-without-attachment|%s" % tag, d0, a)
+        if not (p.c.flags()["lost"] and p.s.flags()["lost"]):
+            acc.bad("C13|invalid-not-refused|%s" % tag, d0 + " (transport still up)", a)
+        else:
+            acc.inc("xpair_refused|%s" % cfw)
+        return
+    if not (c_att and s_att):
+        acc.bad("C13|valid-refused|%s" % tag, d0 + " -> attached c=%s s=%s escapes=%s" % (
+            c_att, s_att, esc[:2]), a)
+        return
+    sid = exp_sid
+    if tkind == "ws":
+        chosen = [p.c.subprotocol(), p.s.subprotocol()]
+        if chosen != ["wamp.2." + sid] * 2:
+            acc.bad("C13|wrong-subprotocol|%s" % tag, d0 + " -> in use %s, reference choice %s" % (
+                chosen, sid), a)
+            return
+    hs = {k: len(v) for k, v in p.log.items()}
+    names = ["publish", "unregistered", "event"]
+    plan = [("c", ["name", n]) for n in names] + [("s", ["name", n]) for n in reversed(names)]
+    sent = {"c": [], "s": []}
+    for side, spec in plan:
+        sd = p.c if side == "c" else p.s
+        exc, _ = sd.send(spec)
+        if exc is not None:
+            acc.bad("C13|send-raised|%s" % tag, d0 + " send(%s) raised %s" % (spec, exc), a)
+        else:
+            sent[side].append(spec)
+    if not ra and tkind == "rs" and a["exp"] is not None and max(min(lim.values()), 0) <= 1 << 20:
+        for side, peer in (("c", "s"), ("s", "c")):
+            limit = lim[peer]
+            if limit >= 1 << 24:
+                continue
+            sd = p.c if side == "c" else p.s
+            exc, _ = sd.send(["sized", sid, limit])
+            if exc is not None:
+                acc.bad("C13|within-limit-send-failed|%s" % tag, d0 + " %d octets raised %s" % (limit, exc), a)
+            else:
+                sent[side].append(["sized", sid, limit])
+            exc, wrote = sd.send(["sized", sid, limit + 1])
+            if exc is None or wrote:
+                acc.bad("C13|overlimit-send-not-refused|%s" % tag,
+                        d0 + " %s sent %d octets (peer announced %d): exception=%s wrote %d" % (
+                            side, limit + 1, limit, exc, wrote), a)
+            else:
+                acc.inc("xpair_overlimit_refused|%s" % cfw)
+    p.collect()
+    for side, direction in (("c", "c2s"), ("s", "s2c")):
+        out = bytes(p.log[direction][hs[direction]:])
+        want = [L.wamp_octets(sid, xfw._msg(tuple(m))) for m in sent[side]]
+        if tkind == "rs":
+            errs, msgs, pings, pongs = R.check_sender_stream(out, lim["s" if side == "c" else "c"])
+            got, wantp = msgs, [w[0] for w in want]
+        else:
+            errs, msgs, ctrls, _ = F.check_sender_stream(out, side == "c")
+            got, wantp = [(x[0], x[1]) for x in msgs], want
+        if errs or got != wantp:
+            acc.bad("C13|wire|%s|%s" % (tag, side), d0 + " wire errors=%s frames=%d expected %d" % (
+                errs[:1], len(got), len(wantp)), a)
+    p.drain(a["chunk"])
+    got_s, got_c = p.s.messages(), p.c.messages()
+    exp_s = [repr(xfw._msg(tuple(m)).marshal()) for m in sent["c"]]
+    exp_c = [repr(xfw._msg(tuple(m)).marshal()) for m in sent["s"]]
+    esc = p.c.escapes() + p.s.escapes()
+    d = d0 + " -> server session got %d/%d, client session got %d/%d, escapes=%s" % (
+        len(got_s), len(exp_s), len(got_c), len(exp_c), esc[:2])
+    acc.classes.add(("xpair", tkind, cfw, bool(ra), a["chunk"], a["exp"] is not None,
+                     got_s == exp_s, got_c == exp_c))
+    for e in esc:
+        acc.bad("C13|escape|%s|%s" % (tag, exc_name(e)), d, a)
+    if not ra:
+        if got_s != exp_s or got_c != exp_c:
+            acc.bad("C13|delivery|%s|segmented" % tag, d, a)
+        else:
+            acc.inc("xpair_delivered|%s|%s" % (tkind, cfw))
+        p.fl["c"] = p.c.peer_drop(False)
+    else:
+        failing, other = (got_c, got_s) if ra[0] == "client" else (got_s, got_c)
+        if len(failing) != 2:
+            acc.bad("C13|delivered-after-failure|%s|session-raise" % tag, d, a)
+        else:
+            acc.inc("xpair_session_failure|%s|%s" % (tkind, cfw))
+    p.drops()
+    p.drain()
+    p.drops()
+    cc, sc = p.c.closes(), p.s.closes()
+    if len(cc) != 1 or len(sc) != 1:
+        acc.bad("C13|onclose-count|%s" % tag, d + " onClose c=%s s=%s flags c=%s s=%s" % (
+            cc, sc, p.c.flags(), p.s.flags()), a)
+    else:
+        acc.inc("xpair_onclose_once|%s" % cfw)
+
+
 MANIFEST = {
     "text": "Real WAMP transport protocol objects (WebSocket and RawSocket, Twisted and asyncio) built by "
             "the real factories on in-memory TCP, with a recording ISession stub (or a real "
@@ -1430,11 +1641,19 @@ MANIFEST = {
             "boundary cut pairs, chunkings and octet-at-a-time (all splits <= 12 octets); 7 corruption "
             "kinds (20 variants) at every position x 3 segmentations x failByDrop: transport closed "
             "(1002 / 1011 / drop; abort), nothing delivered afterwards, session.onClose exactly once, "
-            "ITransport closed afterwards.",
+            "ITransport closed afterwards. All client/server framework pairings: besides the same-"
+            "framework pairs, every worker runs its endpoint (as client and as server, WebSocket and "
+            "RawSocket) against a real endpoint of the OTHER framework living in a child process, only "
+            "octets relayed in between (harness/xfw.py): every serializer x chunkings x failByDrop, "
+            "announced RawSocket limits with messages of exactly / one above the limit, failing session "
+            "code on either side, and all pairs of ordered serializer lists (<= 2 ids quick, <= 4 "
+            "thorough): attachment <=> common serializer, the client's first supported choice in use "
+            "on both ends, wire well-formed per the reference framing, messages intact in order both "
+            "ways, over-limit sends refused with nothing written, onClose exactly once per side.",
     "note": "Trusted: ref/rawsocket.py, ref/ws_frames.py (written from the specifications), env "
             "transports, autobahn serializers for payload encoding. asyncio RawSocket cannot configure "
-            "its receive limit (always 2^24). Cross-framework pairs are argued by conformance of each "
-            "side to the reference peer, not executed. Post-handshake closing by an escaping exception "
+            "its receive limit (always 2^24). Cross-framework pairs run in two processes joined by an "
+            "octet relay (txaio is process-global). Post-handshake closing by an escaping exception "
             "is counted, not flagged.",
     "technique": "exhaustive handshake-octet sweep and bounded exhaustive exploration of negotiation "
                  "lists, limits, message sequences x segmentations and fault positions on the real "
